@@ -124,10 +124,37 @@ def parse_out(line):
     return {'steps': steps, 'results': results, 'sets': sets, 'wr': int(m.group(2)), 'q': int(m.group(3)), 'status': status}
 
 
-def derive_hints(p):
+def never_ran(p):
+    """ids of the submitted tasks whose body never ran, per set, oldest first: {set: [id, ...]}"""
+    ran = set(a for evs in p['results'].values() for (tag, a, st) in evs if tag == 1)
+    subs = []
+    for evs in p['results'].values():
+        for (tag, a, st) in evs:
+            if tag in (5, 14):
+                subs.append((a // 64, a % 64))
+            elif tag in (11, 15):
+                base, st_, n = a // 4096, (a // 64) % 64, a % 64
+                subs += [(base + i, st_) for i in range(n)]
+    out = {}
+    for i, st_ in sorted(subs):
+        if i not in ran:
+            out.setdefault(st_, []).append(i)
+    return out
+
+
+def derive_hints(p, alt=0):
     """the dequeue oracle of the model, read off the implementation's trace: one hint per successful general dequeue
-    (a wrapper start whose thread's previous step is a help / worker point): the task id when the body then runs, else -(set+1)"""
+    (a wrapper start whose thread's previous step is a help / worker point): the task id when the body then runs.  When the wrapper skips
+    the body (set cancelled) the task it took is not observable; it is one of the set's tasks whose body never ran: the alt-th rotation of
+    those (alt = 0: oldest first; run_lockstep tries further rotations before it calls a disagreement), else -(set+1) = "oldest of the set"."""
     steps = p['steps']
+    skipped = {k: list(v) for k, v in never_ran(p).items()}
+    for k in skipped:
+        if skipped[k] and alt:
+            a = alt % len(skipped[k])
+            skipped[k] = skipped[k][a:] + skipped[k][:a]
+            if alt >= len(skipped[k]):
+                skipped[k].reverse()
     per_thread = {}
     for i, (t, code) in enumerate(steps):
         per_thread.setdefault(t, []).append(i)
@@ -159,7 +186,28 @@ def derive_hints(p):
                 h = body_id[idxs[n + 1]]
             hints.append((prev[t][1], h))       # ordered by the step that dequeued
         prev[t] = (site, i)
-    return [h for _, h in sorted(hints)]
+    out = []
+    for _, h in sorted(hints):
+        if h < 0 and skipped.get(-h - 1):
+            h = skipped[-h - 1].pop(0)
+        out.append(h)
+    return out
+
+
+def skipped_dequeues(p):
+    """number of general dequeues whose wrapper skipped the body (the task taken is not observable)"""
+    n = 0
+    prev = {}
+    per_thread = {}
+    for i, (t, code) in enumerate(p['steps']):
+        per_thread.setdefault(t, []).append(i)
+    for t, idxs in per_thread.items():
+        for n_, i in enumerate(idxs):
+            site = p['steps'][i][1] // 64
+            if site == 11 and n_ > 0 and p['steps'][idxs[n_ - 1]][1] // 64 in (31, 32, 43):
+                if not (n_ + 1 < len(idxs) and p['steps'][idxs[n_ + 1]][1] // 64 == 12):
+                    n += 1
+    return n
 
 
 def trailing_dequeue(p):
@@ -195,8 +243,8 @@ def ztrips(l):
     return dv.coq_list(['(%s,%s,%s)' % (dv.zlit(a), dv.zlit(b), dv.zlit(x)) for a, b, x in l])
 
 
-def case_term(c, p):
-    hints = derive_hints(p)
+def case_term(c, p, alt=0):
+    hints = derive_hints(p, alt)
     nthr = len(c['threads'])
     return '(LC %s %d%%nat %s %s %s %s %s %d %d)' % (
         setup_coq(c, hints), c['budget'] + 1, dv.coq_list([str(x) for x in c['sched'][:c['budget']]]),
@@ -461,6 +509,18 @@ def run_lockstep(ctx, exe, cases, judge, timeout=900):
         verdicts = judge_parallel(ctx, IMPORTS, judge + '_impl', terms, shard_size=60)
         if verdicts is None:
             return None
+    # a disagreement on a trace with skipped (cancelled) dequeues may only mean that the oracle guessed the unobservable task wrongly:
+    # the model is non-deterministic there, so look for another oracle under which it produces the implementation's trace
+    verdicts = list(verdicts)
+    amb = [i for i, ((c, p, o), v) in enumerate(zip(kept, verdicts)) if v == 1 and skipped_dequeues(p) > 0]
+    if amb:
+        alts = [(i, a) for i in amb[:40] for a in range(1, 9)]
+        v2 = judge_parallel(ctx, IMPORTS, judge, [case_term(kept[i][0], kept[i][1], a) for i, a in alts], shard_size=60)
+        if v2 is not None:
+            for (i, a), v in zip(alts, v2):
+                if v == 0 and verdicts[i] == 1:
+                    verdicts[i] = 0
+                    ctx.cov['agree_under_alternative_dequeue_oracle'] = ctx.cov.get('agree_under_alternative_dequeue_oracle', 0) + 1
     return [(c, p, o, v) for (c, p, o), v in zip(kept, verdicts)]
 
 
